@@ -191,3 +191,38 @@ func GrowUnguarded(cands []int, boundary map[int]bool, force bool) []int {
 	}
 	return out
 }
+
+type snode struct {
+	lo, hi   float64
+	leaf     *float64
+	children []*snode
+}
+
+// clean:SEARCHALL
+func (n *snode) find(x float64) *float64 {
+	if x < n.lo || x > n.hi {
+		return nil
+	}
+	if n.leaf != nil {
+		return n.leaf
+	}
+	for _, ch := range n.children {
+		if res := ch.find(x); res != nil {
+			return res
+		}
+	}
+	return nil
+}
+
+// want:SEARCHALL overlapping children: the first match is final.
+func (n *snode) findFirst(x float64) *float64 {
+	if n.leaf != nil {
+		return n.leaf
+	}
+	for _, ch := range n.children {
+		if x >= ch.lo && x <= ch.hi {
+			return ch.findFirst(x)
+		}
+	}
+	return nil
+}
